@@ -251,6 +251,26 @@ def stepOwn (st : OwnSt) (toks : List String) : Option (OwnSt × String) :=
         | _, _, _, _ => bad
       | _ => bad
     | _, _ => bad
+  | "own.madd" :: m :: _descs =>
+    -- `bufr_template_add_DescValue` on a finalized template, then `bufr_finalize_template` again
+    match slotOf m with
+    | some m =>
+      if !held st (slotM m) then bad else
+      match obs with
+      | [r, sh, c] =>
+        (match parseTShape sh, parseFlag 'c' c with
+         | some sh', some c' =>
+           if r = "ok" ∨ r = "fail" then
+             doOps st [.mset m sh', .mcache m (c' ≠ 0)] fun s =>
+               match s.slot? (slotM m) with
+               | some root => (match s.find? root with
+                 | some n => s!"{r} {fmtTShape (tshapeOf n)} {c}"
+                 | none => "?")
+               | none => "?"
+           else bad
+         | _, _ => bad)
+      | _ => bad
+    | none => bad
   | ["own.mload", m, src, _path] =>
     match slotOf m, (if src = "-" then some none else (parseTArg src).map some) with
     | some m, some sa =>
@@ -412,10 +432,12 @@ def stepOwn (st : OwnSt) (toks : List String) : Option (OwnSt × String) :=
       if held st (slotG g) || !held st (slotD d) then bad else
       match obs with
       | ["null"] => some (st, "null")
-      | ["ok", a, b, c1, c2, e, c] =>
-        (match parseFlag 'e' e, parseFlag 'c' c with
-         | some e', some c' => doOps st [.gnew g, .dtmpl d e' (c' ≠ 0)] fun _ => " ".intercalate ["ok", a, b, c1, c2, e, c]
-         | _, _ => bad)
+      | ["ok", a, b, c1, _c2, mdl, e, c] =>
+        -- the allocation is predicted, not echoed: `bufr_alloc_sect4` gives `max_data_len + 10` octets, the slack
+        -- `SafeWrites` (BufrProofs/OwnGrowth.lean) assumes when it shows that every write lands inside it
+        (match parseFlag 'e' e, parseFlag 'c' c, mdl.toNat? with
+         | some e', some c', some m => doOps st [.gnew g, .dtmpl d e' (c' ≠ 0)] fun _ => " ".intercalate ["ok", a, b, c1, toString (m + 10), mdl, e, c]
+         | _, _, _ => bad)
       | _ => bad
     | _, _ => bad
   | ["own.gwrite", b, g] =>
